@@ -3,6 +3,7 @@ package rules
 import (
 	"fmt"
 	"go/token"
+	"go/types"
 	"math/big"
 	"path/filepath"
 	"sort"
@@ -347,6 +348,8 @@ func checkC01(c *Ctx) {
 	addLimb(c, "C01-1", obs, err, "fiat field package")
 	c.R.Floor("C01-1", 80)
 	// rule 7: reduceSaturated; rule 8: helpers / byte order
+	obs, err = limbproof.CheckUint64ToUint1(filepath.Join(s.fiatDir(prog), "voi.go"))
+	addLimb(c, "C01-1", obs, err, "fiat field control-word normaliser")
 	obs, err = limbproof.CheckReduceSaturated(s.redFile, s.modulus)
 	addLimb(c, "C01-7", obs, err, "field reduceSaturated")
 	c.R.Floor("C01-7", 5)
@@ -929,6 +932,14 @@ func returnsReduced(v ssa.Value, depth int) bool {
 	if g == nil || len(g.Blocks) == 0 || g.Pkg == nil || !load.IsModulePkg(g.Pkg.Pkg.Path()) {
 		return false
 	}
+	if g.Name() == "reduceSaturated" {
+		// the by-value form: the array result is the reduced value (rule Cnn-7 proves it for whichever shape it has)
+		if res := g.Signature.Results(); idx < res.Len() {
+			_, isArr := res.At(idx).Type().Underlying().(*types.Array)
+			return isArr
+		}
+		return false
+	}
 	n := 0
 	for _, b := range g.Blocks {
 		ret, ok := b.Instrs[len(b.Instrs)-1].(*ssa.Return)
@@ -957,6 +968,8 @@ func checkC02(c *Ctx) {
 	obs, err := limbproof.CheckFiat(s.fiatDir(prog), s.modulus)
 	addLimb(c, "C02-1", obs, err, "fiat scalar package")
 	c.R.Floor("C02-1", 80)
+	obs, err = limbproof.CheckUint64ToUint1(filepath.Join(s.fiatDir(prog), "voi.go"))
+	addLimb(c, "C02-1", obs, err, "fiat scalar control-word normaliser")
 	obs, err = limbproof.CheckReduceSaturated(s.redFile, s.modulus)
 	addLimb(c, "C02-7", obs, err, "scalar reduceSaturated")
 	c.R.Floor("C02-7", 5)
